@@ -187,6 +187,11 @@ def run(ctx):
                 "std::cmp::PartialEq", "std::cmp::Ord", "std::cmp::PartialOrd", "std::hash::Hash"):
             n += 1
             fields = {fld for (adt, var, fld, mode, bb, line) in f.field_accesses() if adt == T}
+            # transitively through workspace callees (e.g. partial_cmp delegating to cmp)
+            for g_id in p.reach_from([f.id]):
+                g = p.fns[g_id]
+                if g.crate == "cargo_fmt" and g is not f:
+                    fields |= {fld for (adt, var, fld, mode, bb, line) in g.field_accesses() if adt == T}
             ok = fields == {"path"}
             r.instance(C, "%s reads %s" % (short(f.id), sorted(fields)), "ok" if ok else "violation", "%s:%d" % (f.file, f.line))
             if not ok:
